@@ -262,6 +262,6 @@ pub fn run(ctx: &mut Ctx) {
     ctx.assumptions = vec!["reference reachable sets above 6000 states are skipped (counted, not judged)".into()];
     let ctx = &*ctx;
     let knobs = SysKnobs::default();
-    ctx.cases("inject", ctx.n(250, 12000), 0, |case| crash_injection_case(case, &knobs));
-    ctx.cases("explore", ctx.n(120, 5000), 0, |case| explored_case(case, &knobs));
+    ctx.cases("inject", ctx.n(1500, 25000), 0, |case| crash_injection_case(case, &knobs));
+    ctx.cases("explore", ctx.n(700, 12000), 0, |case| explored_case(case, &knobs));
 }
